@@ -259,3 +259,14 @@ func ErrClass(err error) string {
 	}
 	return errClass(err)
 }
+
+// NewStream returns an initialized stream with the fixture's description (for harnesses that need a stream but
+// no path manager).
+func NewStream() *stream.Stream {
+	desc, _, _ := NewDesc()
+	s := &stream.Stream{OrigDesc: desc, WriteQueueSize: 8, RTPMaxPayloadSize: 1450, ReplaceNTP: true, Parent: Logger{}}
+	if err := s.Initialize(); err != nil {
+		panic(err)
+	}
+	return s
+}
